@@ -616,7 +616,10 @@ func rawSignatureData(rrset []RR, s *RRSIG) (buf []byte, err error) {
 		// 6.2. Canonical RR Form. (4) - wildcards
 		if len(labels) > int(s.Labels) {
 			// Wildcard
-			h.Name = "*." + strings.Join(labels[len(labels)-int(s.Labels):], ".") + "."
+			h.Name = "*."
+			if s.Labels > 0 { // "*." itself is the wildcard below the root
+				h.Name += strings.Join(labels[len(labels)-int(s.Labels):], ".") + "."
+			}
 		}
 		// RFC 4034: 6.2.  Canonical RR Form. (2) - domain name to lowercase
 		h.Name = CanonicalName(h.Name)
